@@ -1,5 +1,5 @@
 /*VERIF
-{ "tu": "src/apply.c", "enforce": "_dispatch_apply_redirect", "props": ["C10","C04","C03"], "plain": true, "seq": true, "timeout": 240,
+{ "tu": "src/apply.c", "enforce": "_dispatch_apply_redirect", "props": ["C10","C04","C03","C18"], "plain": true, "seq": true, "timeout": 240,
   "bounded": {"unwind": 5, "what": "target-queue chains of <= 3 custom queues below the root (pointer-chasing loop, no loop contract)"},
   "stub_note": "_dispatch_queue_try_reserve_apply_width (own contract), _dispatch_queue_relinquish_width, _dispatch_apply_serial, _dispatch_apply_f: stubs that keep a per-level ghost account of reserved width" }
 VERIF*/
@@ -9,7 +9,7 @@ VERIF*/
 struct dispatch_lane_s H_q[4]; unsigned H_n;      /* H_q[H_n] is the root */
 struct dispatch_apply_s H_da; struct dispatch_continuation_s H_dc;
 int32_t H_held[4];            /* ghost: reader width currently reserved by this apply on each level */
-int32_t H_requested; unsigned H_serial, H_parallel; int32_t H_parallel_thr; _Bool H_bad;
+int32_t H_requested; unsigned H_serial, H_parallel; int32_t H_parallel_thr; _Bool H_bad; dispatch_function_t H_helper_func;
 static unsigned h_level(dispatch_queue_t dq) { for (unsigned i = 0; i < 4; i++) if (dq == (dispatch_queue_t)&H_q[i]) return i; H_bad = 1; return 0; }
 static inline int32_t _dispatch_queue_try_reserve_apply_width(dispatch_queue_t dq, int32_t da_width)
 { int32_t w = ND(int32_t); __CPROVER_assume(w >= 0 && w <= da_width); if (H_parallel || H_serial) H_bad = 1; H_held[h_level(dq)] += w; return w; }
@@ -17,7 +17,7 @@ static inline void _dispatch_queue_relinquish_width(dispatch_queue_t top_dq, dis
 { unsigned a = h_level(top_dq), b = h_level(stop_dq); if (a != 0) H_bad = 1; for (unsigned i = 0; i < 4; i++) if (i >= a && i < b) H_held[i] -= da_width; }
 static void _dispatch_apply_serial(void *ctxt) { (void)ctxt; H_serial++; }
 static inline void _dispatch_apply_f(dispatch_queue_global_t dq, dispatch_apply_t da, dispatch_function_t func)
-{ (void)func; if ((void *)dq != (void *)&H_q[H_n]) H_bad = 1; H_parallel++; H_parallel_thr = da->da_thr_cnt;
+{ H_helper_func = func; if ((void *)dq != (void *)&H_q[H_n]) H_bad = 1; H_parallel++; H_parallel_thr = da->da_thr_cnt;
   /* while the helpers run, every level holds exactly the helper count */
   for (unsigned i = 0; i < 4; i++) if (i < H_n && H_held[i] != da->da_thr_cnt - 1) H_bad = 1; }
 VERIF_CONTRACT_VOID(_dispatch_apply_redirect, (void *ctxt),
@@ -27,13 +27,16 @@ VERIF_CONTRACT_VOID(_dispatch_apply_redirect, (void *ctxt),
   ENS(runs_exactly_once_serially_or_in_parallel, H_serial + H_parallel == 1)
   /* reader width reserved on each level is given back on each level: nothing stays reserved after the apply */
   ENS(all_reserved_width_is_given_back_on_every_level, H_held[0] == 0 && H_held[1] == 0 && H_held[2] == 0 && H_held[3] == 0)
+  /* C18 / C03: helper threads of a redirected apply ALWAYS run the iterations through _dispatch_apply_redirect_invoke, which installs the queue the apply was submitted
+   * to as the current queue (whatever that queue's priority): dispatch_get_specific / dispatch_assert_queue inside an iteration see the same hierarchy on every thread */
+  ENS(helpers_always_assume_the_identity_of_the_submitted_to_queue, VIMPL(H_parallel == 1, H_helper_func == _dispatch_apply_redirect_invoke))
   ENS(helper_count_shrinks_to_what_every_level_granted, VIMPL(H_parallel == 1, H_parallel_thr >= 2 && H_parallel_thr <= H_requested + 1 && H_da.da_thr_cnt == H_parallel_thr))
 )
 void harness(void)
 {
 	VERIF_GHOST_RESET();
 	H_n = ND(unsigned); __CPROVER_assume(H_n >= 1 && H_n <= 3);
-	for (unsigned i = 0; i < 4; i++) { H_q[i].do_targetq = (i < H_n) ? (dispatch_queue_t)&H_q[i + 1] : 0; H_held[i] = 0; *(uint16_t *)&H_q[i].dq_width = 8; }
+	for (unsigned i = 0; i < 4; i++) { H_q[i].do_targetq = (i < H_n) ? (dispatch_queue_t)&H_q[i + 1] : 0; H_held[i] = 0; *(uint16_t *)&H_q[i].dq_width = 8; H_q[i].dq_priority = ND(dispatch_priority_t); }
 	H_requested = ND(int32_t); __CPROVER_assume(H_requested >= 1 && H_requested <= 64); H_da.da_dc = &H_dc; H_dc.dc_data = &H_q[0]; H_da.da_thr_cnt = H_requested + 1; H_da.da_flags = ND(dispatch_invoke_flags_t);
 	H_serial = 0; H_parallel = 0; H_bad = 0;
 	VERIF_PRE_CALL(_dispatch_apply_redirect, &H_da);
